@@ -728,6 +728,7 @@ def main():
         op = op_cases[oi]
         cfg = api_real[oi]["offered"][ci]
         ck.count("offered_refused:" + v)
+        ck.count("offered_refused_on:" + G["accs"][op["acc"]].value)
         what = ("api.npu_find_block_configs offers block config h,w,d=%s on %s for %s %s ifm(w,h,d,q)=%s ofm=%s kernel=%s, "
                 "register_command_stream_generator refuses it: %s [%s]" % (cfg, G["accs"][op["acc"]].value, op["dtype"], op["kind"],
                                                                           op["ifm"], op["ofm"], op["kernel"], g, v))
